@@ -173,6 +173,7 @@ StepCreate ==
          contract == /\ ok
                      /\ Ev.result.location = meta.url \o "/nchf-convergedcharging/v3/chargingdata/" \o resp.ref
                      /\ (a.onetime \/ resp.ref # "")       \* (an event is answered under the collection itself)
+                     /\ (a.onetime \/ RefFresh(h, resp.ref))   \* "the NEW session reference": not that of a session still open
                      /\ Ev.result.seq = Ev.args.isn
      IN /\ pre' = obs /\ h' = h2
         /\ viol' = viol \cup StateClauses(obs, h2) \cup FileClausesAt(Ev.state, <<1, 0>>, TRUE)
